@@ -279,7 +279,16 @@ def check_bs(case, ctx):
         if dropouts:
             ctx.note("history with drop-outs")
         if dropouts and not b1.ok and isinstance(b1.exc, ValueError):
-            ctx.note("batch run refused a dropped-out sample with ValueError (C13's business): batch-vs-stream not evaluated")
+            ctx.note("batch run refused a dropped-out sample with ValueError (C13's business): values not compared")
+            # ... but refusing is behaviour too: the streamed updates, started from the attitude the batch run gives the clean head of the recording,
+            # must refuse the recording as well
+            first_bad = int(np.argmax((~np.any(a, axis=1)) | (~np.any(m, axis=1))))
+            if first_bad >= 2:
+                head = call(run_batch, name, kw, g[:first_bad], a[:first_bad], m[:first_bad], seed, order)
+                if head.ok:
+                    st_ = call(run_stream, name, kw, np.asarray(head.value)[0], g, a, m, seed, order)
+                    ctx.ok("a recording the batch run refuses with ValueError is refused by the streamed updates too", (not st_.ok) and isinstance(st_.exc, ValueError),
+                           {"batch": str(b1.exc)[:80], "stream": "returned %d attitudes" % len(np.asarray(st_.value)) if st_.ok else "%s: %s" % (st_.exc_name, str(st_.exc)[:80])}, route=r2)
         elif ctx.returned(b1, clause="batch run", route=r2):
             B = b1.value
             if ctx.ok("batch output has one quaternion per sample", B.shape == (len(g), 4), {"shape": list(B.shape)}, route=r2):
